@@ -148,8 +148,8 @@ COMMIT_OVERLAY_MAPS = ['.CommitOverlay.indexed', '.CommitOverlay.address', '.Com
 
 
 def overlay_bound_params(F, maps, skip_prefixes=('log::LogWriter', 'log::LogChange')):
-    """(crate function path -> set of parameter locals) that are bound, at some call site, to a reference derived from one of
-    the shared overlay maps (helpers that receive the map as `&mut HashMap<..>`); fixed point over the call graph."""
+    """{crate function path: {parameter local: set(maps)}} for parameters that are bound, at some call site, to a reference derived
+    from one of the shared overlay maps (helpers that receive the map as `&mut HashMap<..>`); fixed point over the call graph."""
     key = ('ovl_bound',) + tuple(maps)
     cache = F.__dict__.setdefault('_ovl_cache', {})
     if key in cache:
@@ -161,28 +161,51 @@ def overlay_bound_params(F, maps, skip_prefixes=('log::LogWriter', 'log::LogChan
         for b in F.bodies.values():
             if b.path.startswith(skip_prefixes):
                 continue
-            mine = bound.get(b.path, set())
+            mine = bound.get(b.path, {})
             for bi, t in b.calls():
-                cb = None
-                for n in core.call_names(t):
-                    if F.body(n) is not None:
-                        cb = F.body(n)
-                        break
-                if cb is None or cb.path.startswith(skip_prefixes):
-                    continue
-                for i, a in enumerate(t['a']):
-                    pl = op_place(a)
-                    if pl is None:
+                cbs = [F.body(n) for n in core.call_names(t) if F.body(n) is not None]
+                # closures handed to an iterator adaptor (`maps.iter_mut().for_each(|o| o.map.clear())`) receive the elements
+                cbs += [F.body(c) for c in lib.closure_operands(b, t) if F.body(c) is not None]
+                for cb in cbs:
+                    if cb.path.startswith(skip_prefixes):
                         continue
-                    ty = str(cb.locals[i + 1]) if i + 1 < len(cb.locals) else ''
-                    if 'HashMap<' not in ty and 'BTreeMap<' not in ty and 'LogOverlay' not in ty and 'CommitOverlay' not in ty:
-                        continue
-                    sl = backward_slice(b, [pl], through_calls=True)
-                    if any(m in sl.fields for m in maps) or (sl.params & mine):
-                        if (i + 1) not in bound.setdefault(cb.path, set()):
-                            bound[cb.path].add(i + 1); changed = True
+                    is_closure_arg = cb.kind == 'Closure' and not any(n == cb.path for n in core.call_names(t))
+                    srcs = []
+                    if is_closure_arg:
+                        # every argument of the adaptor call may flow into the closure's parameters
+                        srcs = [(pi, a) for a in t['a'] for pi in range(2, cb.argc + 1)]
+                    else:
+                        srcs = [(i + 1, a) for i, a in enumerate(t['a'])]
+                    for pi, a in srcs:
+                        pl = op_place(a)
+                        if pl is None or pi >= len(cb.locals):
+                            continue
+                        ty = str(cb.locals[pi])
+                        if is_closure_arg:
+                            # element closures: only parameters whose type is one of the overlay structs themselves
+                            if not re.search(r'(IndexLogOverlay|ValueLogOverlay|RefCountLogOverlay|LogOverlays|CommitOverlay)\b', ty):
+                                continue
+                        elif 'HashMap<' not in ty and 'BTreeMap<' not in ty and 'LogOverlay' not in ty and 'CommitOverlay' not in ty:
+                            continue
+                        sl = backward_slice(b, [pl], through_calls=True)
+                        got = set(m for m in maps if m in sl.fields)
+                        for q in sl.params & set(mine):
+                            got |= mine[q]
+                        if got and got - bound.get(cb.path, {}).get(pi, set()):
+                            bound.setdefault(cb.path, {}).setdefault(pi, set()).update(got); changed = True
     cache[key] = bound
     return bound
+
+
+def receiver_overlay_maps(F, b, t, maps, bound):
+    """the overlay maps argument 0 of the call may derive from (directly, or through a bound parameter)"""
+    if not t['a'] or op_place(t['a'][0]) is None:
+        return set()
+    sl = backward_slice(b, [op_place(t['a'][0])])
+    got = set(m for m in maps if m in sl.fields)
+    for q in sl.params & set(bound.get(b.path, {})):
+        got |= bound[b.path][q]
+    return got
 
 
 def receiver_is_overlay(F, b, t, maps, bound):
@@ -193,8 +216,9 @@ def receiver_is_overlay(F, b, t, maps, bound):
     hit = [m for m in maps if m in sl.fields]
     if hit:
         return hit[0]
-    if sl.params & bound.get(b.path, set()):
-        return '(overlay map parameter _%d)' % sorted(sl.params & bound[b.path])[0]
+    qs = sorted(sl.params & set(bound.get(b.path, {})))
+    if qs:
+        return '(overlay map parameter _%d)' % qs[0]
     return None
 
 
@@ -236,6 +260,7 @@ def owner_id_removal(ctx, p):
             '.IndexLogOverlay.map', '.ValueLogOverlay.map', '.RefCountLogOverlay.map']
     RESET_OK = {'log::Log::clear_replay_logs': 'replay is over (or failed): the log overlay is emptied wholesale before the logs are cleaned'}
     n = 0
+    covered = set()
     bound = overlay_bound_params(F, maps)
     for b in sorted(F.bodies.values(), key=lambda x: x.path):
         if b.path.startswith(('log::LogWriter', 'log::LogChange')):
@@ -251,16 +276,20 @@ def owner_id_removal(ctx, p):
             if not h:
                 continue
             hit = [h if not h.startswith('(overlay map parameter') or b.path != CLEAN_BT else '(btree overlay parameter)']
-            if b.path in RESET_OK:
-                ctx.ob(p + 'a overlay-reset %s %s' % (b.path, hit[0]), 'K4-confinement', b.path, 'wholesale reset, reviewed: ' + RESET_OK[b.path], nm.endswith('::clear'), nm, b.loc(bi))
+            rk = [k for k in RESET_OK if lib.site_in(F, k, b.path)]
+            if rk:
+                ctx.ob(p + 'a overlay-reset %s %s' % (b.path, hit[0]), 'K4-confinement', b.path, 'wholesale reset, reviewed: ' + RESET_OK[rk[0]], nm.endswith('::clear'), nm, b.loc(bi))
                 continue
             n += 1
+            covered |= receiver_overlay_maps(F, b, t, maps, bound)
             # record id parameter of the enclosing function: named record_id
             rid = [l for l, name in b.names.items() if name == 'record_id' and 1 <= l <= b.argc]
             lib.eq_guarded(ctx, p + 'a owner-guard %s %s #bb-of-%s' % (b.path, hit[0], nm.split('::')[-1]), b, bi,
                            'an overlay entry is removed only if its record-id tag (tuple field 0) equals the record id this call is cleaning for (a later commit\'s newer entry for the same key must survive)',
                            fields=['.#0'], params=rid[:1] or [3])
-    ctx.ob(p + 'b owner-guard-count', 'anchor', '-', 'six guarded removal sites exist (indexed, address, btree; log index, value, ref-count)', n >= 6, 'found %d' % n)
+    need = [['.CommitOverlay.indexed'], ['.CommitOverlay.address'], ['.CommitOverlay.btree_indexed'], ['.LogOverlays.index', '.IndexLogOverlay.map'], ['.LogOverlays.value', '.ValueLogOverlay.map'], ['.LogOverlays.ref_count', '.RefCountLogOverlay.map']]
+    missing = [g[0] for g in need if not any(m in covered for m in g)]
+    ctx.ob(p + 'b owner-guard-count', 'anchor', '-', 'guarded removal exists for each of the six overlay maps (indexed, address, btree; log index, value, ref-count)', n >= 1 and not missing, 'sites %d, maps without a removal site: %s' % (n, missing))
 
 
 READ_FNS = [
@@ -517,8 +546,9 @@ def file_reads_shadowed(ctx, p):
         sites = b.call_sites(*RAW_READERS)
         if not sites:
             continue
-        if b.path in UNSHADOWED_OK:
-            ctx.ob(p + 'a unshadowed-read-reviewed %s' % b.path, 'K4-confinement', b.path, 'reads file bytes without the overlay by design: ' + UNSHADOWED_OK[b.path], True, '')
+        uk = [k for k in UNSHADOWED_OK if lib.site_in(F, k, b.path)]      # the reviewed function, or a helper/closure reachable only through it
+        if uk:
+            ctx.ob(p + 'a unshadowed-read-reviewed %s' % b.path, 'K4-confinement', b.path, 'reads file bytes without the overlay by design: ' + UNSHADOWED_OK[uk[0]], True, '')
             continue
         lq = lib.sites_reaching(b, LOGQUERY, lift=False)
         for i, s2 in enumerate(sites):
